@@ -1,10 +1,10 @@
 import json
-from . import seq, conc
+from . import seq, conc, fab
 from harness import common
 
 CHECKS = {
   "C01": seq.c01, "C02": seq.c02, "C03": seq.c03, "C14": seq.c14, "C15": seq.c15,
-  "C19": seq.c19, "C20": seq.c20, "C21": seq.c21, "C22": seq.c22, "C23": seq.c23, "C24": seq.c24, "C17": seq.c17, "C18": seq.c18, "C04": conc.c04, "C05": conc.c05, "C16": conc.c16,
+  "C19": seq.c19, "C20": seq.c20, "C21": seq.c21, "C22": seq.c22, "C23": seq.c23, "C24": seq.c24, "C17": seq.c17, "C18": seq.c18, "C04": conc.c04, "C05": conc.c05, "C16": conc.c16, "C06": fab.c06, "C08": fab.c08, "C13": fab.c13,
 }
 
 
